@@ -43,6 +43,26 @@ def emitted_views(seed, idx, tier, j):
     Expressions without a view operation are not this property's subject and only counted."""
     from vf.props import c02
 
+    if j % 4 == 3:
+        # every fourth case: a C03 program that takes several equally typed views (2-bit slices at different positions) of a
+        # value hoisted with cohdl.always
+        from vf.props import c03
+
+        for k in range(12):
+            prog = c03.gen_program(seed, j * 12 + k, tier)
+            names = [nm for c in prog["ctxs"] for nm, _ in c.get("always_vals", [])]
+            if names and any(repr(["sl2", nm]).rstrip("]") in repr(prog) for nm in names):
+                break
+        r = c03.run_one(seed, j * 12 + k, tier)
+        hit = bool(names) and r["status"] == "violation" and r.get("vclass") == "mismatch"
+        res = {"idx": idx, "shape": "emitted-c03:" + str(r.get("shape")), "stats": {}, "classes": 0, "objects": 0, "nops": 0, "kinds": ["emitted-view-case"] if names else ["emitted-no-view"], "emitted": r["status"]}
+        if hit:
+            res.update(status="violation", vclass="view-in-emitted-code-reads-other-storage", detail=dict(r["detail"], generator="C03 program with views of a hoisted value"), payload={"emitted": True, "seed": seed, "idx": idx, "tier": tier, "j": j})
+        else:
+            res["status"] = "ok" if r["status"] in ("ok", "violation") else "skipped"
+            if res["status"] == "skipped":
+                res["reason"] = "emitted-code case not explored: " + str(r.get("reason") or r["status"])[:80]
+        return res
     r = c02.run_one(seed, j, tier)
     ops = set((r.get("info") or {}).get("ops") or [])
     res = {"idx": idx, "shape": "emitted:" + str(r.get("shape")), "stats": {}, "classes": 0, "objects": 0, "nops": 0, "kinds": ["emitted-view-case"] if ops & VIEW_OPS else ["emitted-no-view"], "emitted": r["status"]}
